@@ -602,11 +602,9 @@ func genVal(t *rapid.T) ValCase {
 		}, "valid-edit")
 	}
 	c.Verbosity = rapid.SampledFrom([]int{0, 0, 0, 1, 1, 2, 3}).Draw(t, "klog-v")
-	bulkOdds := 39
-	if harness.Thorough() {
-		bulkOdds = 19
-	}
-	if rapid.IntRange(0, bulkOdds).Draw(t, "bulk") == 0 {
+	// (a value in the middle of the range: rapid favours the ends)
+	bulkDraw := rapid.IntRange(0, 59).Draw(t, "bulk")
+	if bulkDraw == 17 || bulkDraw == 23 || (harness.Thorough() && bulkDraw == 41) {
 		targets := []int{1 << 16, 1 << 20, 1 << 20, 1 << 20}
 		if harness.Thorough() {
 			targets = append(targets, 1<<22, 1<<24)
